@@ -468,16 +468,19 @@ public:
         assert(ss_front_ == 0);
         assert(ss_stack_.empty());
 
-        std::uint16_t* bktcache =
-            reinterpret_cast<std::uint16_t*>(bktcache_.data());
-
         // sort first level
-        ss_stack_.emplace_back(ctx_, strptr, depth, bktcache);
+        ss_stack_.emplace_back(
+            ctx_, strptr, depth,
+            reinterpret_cast<std::uint16_t*>(bktcache_.data()));
 
         // step 5: "recursion"
 
         while (ss_stack_.size() > ss_front_)
         {
+            // re-read in every round: sort_mkqs_cache() may reallocate bktcache_
+            std::uint16_t* bktcache =
+                reinterpret_cast<std::uint16_t*>(bktcache_.data());
+
             Step& s = ss_stack_.back();
             size_t i = s.idx_++; // process the bucket s.idx_
 
